@@ -125,8 +125,11 @@ class UMNDirHandler(DirHandler):
         for linkentry in self.linkentries:
             if linkentry.getneedsmerge() and linkentry.selector in fileentriesdict:
                 if linkentry.gettype() == "X":
-                    # It's special code to hide something.
-                    self.fileentries.remove(fileentriesdict[linkentry.selector])
+                    # It's special code to hide something (which an earlier
+                    # block may have hidden already).
+                    hidden = fileentriesdict[linkentry.selector]
+                    if hidden in self.fileentries:
+                        self.fileentries.remove(hidden)
                 else:
                     self.mergeentries(fileentriesdict[linkentry.selector], linkentry)
                 continue
